@@ -166,6 +166,11 @@ def ieval(g, rd, f, idx, ctx, env, depth=0):
         sk = n.get('sk')
         if 'v' in n and sk in ('global', 'static_local', 'enum'):
             return n['v']
+        if 'vs' in n and sk in ('global', 'static_local', 'enum'):
+            try:
+                return int(n['vs'])
+            except ValueError:
+                return None
         if sk == 'param':
             if ctx is not None and ctx.call is not None and not ctx.lambda_of:
                 for pi, p in enumerate(f.params):
@@ -175,6 +180,8 @@ def ieval(g, rd, f, idx, ctx, env, depth=0):
                             return ieval(g, rd, ctx.caller, args[pi], ctx.parent, env, depth + 1)
             return env.get('param:%s' % n['name'])
         if sk == 'local':
+            if ('local:%s' % n['name']) in env:
+                return env['local:%s' % n['name']]
             pt = g.point_of.get((id(ctx), idx))
             if pt is None:
                 return None
